@@ -163,6 +163,13 @@ def window_leg(res, tier, prop, work=None):
             wins = [(a, None, "utc") for a in bs] + [(None, b, "utc") for b in bs]
             pairs = bs[:: max(1, len(bs) // (8 if tier == "quick" else 40))]
             wins += [(a, b, "utc") for a in pairs for b in pairs if a <= b]
+            # two-sided windows whose bounds are exactly entry times
+            exact = sorted(set(ref))
+            exact = exact if tier == "thorough" else exact[:: max(1, len(exact) // 12)] + exact[-1:]
+            for i, t in enumerate(exact):
+                wins += [(t, t, "utc"), (t - 1, t, "utc"), (t, t + 1, "utc")]
+                if i:
+                    wins.append((exact[i - 1], t, "utc"))
             # the same bounds written with a non-zero offset, and zone-less under a non-zero --tz-offset
             for st in ("off", "naive"):
                 sub = bs if tier == "thorough" else bs[::3]
@@ -272,6 +279,28 @@ def run(tier, seed, build=True):
                     res.violation({"kind": "container", "container": cn.rsplit(".", 1)[-1], "symptom": "bytes-differ"}, "journal %s stored as %s prints %d bytes vs %d for the plain file" % (jname, cn, len(r.out), len(base_out)),
                                   {"engine": "E-CLI", "args": ["--color", "never", cn], "journal": jname})
                 shutil.rmtree(cdir, ignore_errors=True)
+        # an archive holding two different journals whose member names end alike (`j/old-u3.journal`, then `j/u3.journal`):
+        # each member must print its own entries
+        names = dict(js)
+        if "u3" in names and "v_multiline" in names:
+            d2 = os.path.join(work, "tar2")
+            da = open(os.path.join(work, names["v_multiline"]), "rb").read()
+            db = open(os.path.join(work, names["u3"]), "rb").read()
+            for order in (("old-u3.journal", "u3.journal"), ("u3.journal", "old-u3.journal")):
+                members = [("j/" + n, da if n.startswith("old-") else db) for n in order]
+                common.write_file(os.path.join(d2, "two.tar"), gen.tar(members))
+                for n, blob in members:
+                    common.write_file(os.path.join(d2, n), blob)
+                for rend in ("cat", "export"):
+                    ra = common.run_s4(["--color", "never", "-t", "+00:00", "--journal-output", rend, "two.tar"], cwd=d2, timeout=120)
+                    rp = common.run_s4(["--color", "never", "-t", "+00:00", "--journal-output", rend] + [n for n, _ in members], cwd=d2, timeout=120)
+                    res.count()
+                    res.distinct(("tar2", order, rend))
+                    if ra.out != rp.out or ra.rc not in (0, 1):
+                        res.violation({"kind": "container", "container": "tar-two-journals", "symptom": "bytes-differ", "rendering": rend},
+                                      "a tar with members %s prints %d bytes (%s); the two journals named as plain files print %d bytes" % ([n for n, _ in members], len(ra.out), rend, len(rp.out)),
+                                      {"engine": "E-CLI", "args": ["--color", "never", "--journal-output", rend, "two.tar"], "journal": "u3 + v_multiline in one tar"})
+            shutil.rmtree(d2, ignore_errors=True)
         window_leg(res, tier, PROP, work)
         res.sample({"journal": js[0][0], "renderings": RENDERINGS})
         res.coverage["rule"] = ("available journals x 10 --journal-output renderings (entry count, order, receive time vs `journalctl --file -o json`; cat byte for byte; export as per-entry field/value multisets) "
